@@ -160,7 +160,7 @@ class ClusterGraph(UndirectedGraph):
                     "Factors defined on clusters of variable not" "present in model"
                 )
 
-            self.factors.append(factor)
+        self.factors.extend(factors)
 
     def get_factors(self, node=None):
         """
